@@ -252,7 +252,7 @@ func formatFSM(format string, a []cty.Value) (string, error) {
 			case 11:
 				// line 77 "format_fsm.rl"
 
-				verb.ArgNum = (10 * verb.ArgNum) + (int(data[p]) - '0')
+				verb.ArgNum = formatNumDigit(verb.ArgNum, data[p])
 
 			case 12:
 				// line 81 "format_fsm.rl"
@@ -267,7 +267,7 @@ func formatFSM(format string, a []cty.Value) (string, error) {
 			case 14:
 				// line 87 "format_fsm.rl"
 
-				verb.Width = (10 * verb.Width) + (int(data[p]) - '0')
+				verb.Width = formatNumDigit(verb.Width, data[p])
 
 			case 15:
 				// line 91 "format_fsm.rl"
@@ -282,7 +282,7 @@ func formatFSM(format string, a []cty.Value) (string, error) {
 			case 17:
 				// line 97 "format_fsm.rl"
 
-				verb.Prec = (10 * verb.Prec) + (int(data[p]) - '0')
+				verb.Prec = formatNumDigit(verb.Prec, data[p])
 
 			case 18:
 				// line 101 "format_fsm.rl"
